@@ -5,5 +5,6 @@ CONSTANTS
   LastChanceAny = {}
   WalkSorted = FALSE
   AssumeUserRange = TRUE
+  QueryTypes = {"names"}
 INVARIANTS NamesStable
 CHECK_DEADLOCK FALSE
